@@ -116,6 +116,15 @@ def run(res, tier, seed):
     for iv in rng.sample(drift_iv, min(len(drift_iv), 2 if tier == "quick" else 6)):
         for where in ("start", "end", "start+1", "end-1"):
             plans.append(("noaa14", "gac_pod", 3, iv, where + "/drift"))
+    # a pass that starts in one listed interval and ends in the NEXT one (a data gap of the pass spans the time between them):
+    # not entirely inside one interval
+    for sc, fmt, table, scid in (("noaa15", "gac_klm", TSM_AFFECTED_INTERVALS_KLM, 4), ("noaa14", "gac_pod", TSM_AFFECTED_INTERVALS_POD, 3),
+                                 ("noaa16", "gac_klm", TSM_AFFECTED_INTERVALS_KLM, 2)):
+        ivs = sorted(table[scid])
+        pairs = [(a, b) for a, b in zip(ivs, ivs[1:]) if 60 < (b[0] - a[1]).total_seconds() < 100 * 60]
+        if pairs and (tier == "thorough" or sc == "noaa14"):
+            a, b = min(pairs, key=lambda ab: ab[1][0] - ab[0][1]) if tier == "quick" else rng.choice(pairs)
+            plans.append((sc, fmt, scid, (a[0], a[1], b[0], b[1]), "bridge"))
     n = 24
     W_by = {}
     scratch = common.scratch_dir()
@@ -128,7 +137,12 @@ def run(res, tier, seed):
         per = 500 if l1b.FMT[fmt]["res"] == "gac" else 1000 / 6.0
         span = int((n - 1) * per)
         s_ms, e_ms = tg.ms_of(iv[0]), tg.ms_of(iv[1])
-        if where == "start-1":
+        numbers = None
+        if where == "bridge":
+            first = e_ms - 14 * int(per)                     # the first lines lie inside the first interval ...
+            n_bridge = int((tg.ms_of(iv[2]) - first) // int(per)) + 15      # ... the last ones inside the next (a long, gap-free pass)
+            iv = (iv[0], iv[1])
+        elif where == "start-1":
             first = s_ms - int(per)
         elif where == "start":
             first = s_ms
@@ -156,9 +170,12 @@ def run(res, tier, seed):
             c[:, 4] = 520 + (rs.rand(W) * 10).astype(int)
             samples_by_line.append(c.ravel().tolist())
         start = tg.dt_of(first)
-        lines = l1b.default_lines(fmt, n, start, counts=lambda i: samples_by_line[i], switch=[(i // 3) % 3 for i in range(n)],
-                                  qual=[(1 << 31) if i == 5 else 0 for i in range(n)])
-        ctx = dict(spacecraft=sc, fmt=fmt, interval=[str(iv[0]), str(iv[1])], position=where, first_line=str(start), lines=n, seed=seed,
+        if where == "bridge":
+            lines = l1b.default_lines(fmt, n_bridge, start, counts=l1b.words_bytes(l1b.pack_words(samples_by_line[0])))
+        else:
+            lines = l1b.default_lines(fmt, n, start, counts=lambda i: samples_by_line[i], switch=[(i // 3) % 3 for i in range(n)],
+                                      qual=[(1 << 31) if i == 5 else 0 for i in range(n)], numbers=numbers)
+        ctx = dict(spacecraft=sc, fmt=fmt, interval=[str(iv[0]), str(iv[1])], position=where, first_line=str(start), lines=len(lines), seed=seed,
                    adjust_clock_drift=drift)
         try:
             r = impl.open_reader(fmt, l1b.build_file(fmt, sc, start, lines), **kw)
